@@ -25,7 +25,7 @@ def _cfg(path, consts, invariants=("WellFormed", "EmitDone")):
         f.write("INIT Init\nNEXT Next\nINVARIANTS %s\nCHECK_DEADLOCK FALSE\n" % " ".join(invariants))
 
 
-def generate(c, profiles, num, seed, bfs=True, module="DocGen", bfs_budget=2):
+def generate(c, profiles, num, seed, bfs=True, module="DocGen", bfs_budget=2, invariants=("WellFormed", "EmitDone")):
     """-> list of distinct {"m":..., "exp":...}; adds the TLC runs to the evidence of check c"""
     seen, out = set(), []
 
@@ -37,14 +37,14 @@ def generate(c, profiles, num, seed, bfs=True, module="DocGen", bfs_budget=2):
                 out.append(e)
     if bfs:
         cfg = os.path.join(c.run_dir, "DocGen_bfs.cfg")
-        _cfg(cfg, dict(BFS, Budget=bfs_budget))
+        _cfg(cfg, dict(BFS, Budget=bfs_budget), invariants)
         r = vf.run_tlc(module, cfg, c.run_dir, timeout=1500, xmx="12g", keep_out=False)
         c.add_tlc("DocGen_bfs", r, "exhaustive: every model of 1 template reachable with %d budgeted elements beyond the first location (first pool entries)" % bfs_budget)
         take(r)
         c.cov["bfs_models"] = len(out)
     for p in profiles:
         cfg = os.path.join(c.run_dir, "DocGen_%s.cfg" % p)
-        _cfg(cfg, PROFILES[p])
+        _cfg(cfg, PROFILES[p], invariants)
         r = vf.run_tlc(module, cfg, c.run_dir, simulate=max(1, num // 8), depth=60, seed=seed, workers=8, timeout=1500, keep_out=False)
         c.add_tlc("DocGen_sim_" + p, r, "random walks of the author state machine, profile " + p)
         take(r)
